@@ -20,7 +20,7 @@
 From SC Require Import Lib.Prelude Lib.Int Lib.Host Model.Rwa Model.RwaCompliance Model.RwaIdentity
   Run.C04Compliance Run.C04Identity Run.C04Stack Run.C04
   Proofs.Rwa Proofs.RwaPrefix Proofs.C04Monitor Proofs.RwaCompliance Proofs.RwaIdentity Proofs.C04Composed
-  Proofs.C04Stack Proofs.C04Examples.
+  Proofs.C04Stack Proofs.C04Mux Proofs.C04Examples.
 
 (* ------------------------------------------------------------------------------------------ *)
 (* GATES.  In ANY state (so in particular in every reachable one), for any authorisation set and
@@ -45,6 +45,29 @@ Theorem C04_gates : forall (hc : hostcfg) (s : state) (c : call) (s' : state) (r
   end.
 Proof. exact gates_thm. Qed.
 Print Assumptions C04_gates.
+
+(* MUXED DESTINATIONS.  `FungibleToken::transfer` of an RWA token takes a MuxedAddress: a plain
+   address, or an account address carrying a 64-bit id ([dest]).  The model's entry point
+   ([transfer_entry] = <RWA as ContractOverrides>::transfer) drops the id, so a transfer to a muxed
+   destination IS the transfer to its address part ([mux_op] is what the harness prints for such a
+   call): in every reachable state it passes exactly the same gates, and the compliance contract
+   receives exactly can_transfer + ONE transferred naming the address part and the amount.  The
+   implementation is held to this on every run: destinations with ids (0, 1, 7, u64::MAX) are sent
+   through the real entry point and evaluated like every other transfer. *)
+Theorem C04_muxed_destination : forall (hc : hostcfg) (cs : list call) (au : list addr) (orc : addr -> oracle)
+    (from : addr) (to : dest) (amt : Z) (s' : state) (r : ret),
+  let s := run hc init cs in
+  let c := mkCall (Transfer from (dest_addr to) amt) au orc in
+  (forall o s0, transfer_entry au o from to amt s0 = transfer au o from (dest_addr to) amt s0) /\
+  (forall id, mkCall (mux_op id (Transfer from (dest_addr to) amt)) au orc = c) /\
+  (step hc s c = (s', Ok r) ->
+     paused s = false /\ aflag s from = false /\ aflag s (dest_addr to) = false /\
+     0 <= amt <= bal s from - frozen s from /\
+     idv_ok (eff_orc s c) from = true /\ idv_ok (eff_orc s c) (dest_addr to) = true /\
+     o_can_transfer (eff_orc s c) = true /\
+     cmp_log s' = [QCanTransfer from (dest_addr to) amt; NTransferred from (dest_addr to) amt]).
+Proof. exact muxed_destination. Qed.
+Print Assumptions C04_muxed_destination.
 
 (* INVARIANT.  After every sequence of calls (all fifteen call kinds, any arguments, any
    authorisation sets, any collaborator answers, failing calls included), for every account
@@ -274,13 +297,17 @@ Print Assumptions C04_monitor_accepts_model.
 (* SECOND LAYER: the modular compliance contract itself (Model/RwaCompliance.v: compliance/storage.rs
    over an abstract set of bound tokens).  [cstep cf s c] = (state after the call, outcome),
    [mlog] = the calls received by the compliance modules during the call that led to the state,
-   [cc_deny c] = the modules that refuse during call c.
+   [cc_deny c] = the modules that refuse (answer false) during call c, [cc_fail c] = the modules
+   that FAIL during call c (trap, raise an error, are not deployed, lack the function, do not
+   return a bool).
 
    DISPATCH, in ANY state: transferred / created / destroyed succeed only with the authorisation
    of the token they name and only if that token is bound, and then the compliance modules
    registered for the hook receive - in registration order, each one once - exactly that
    notification with the exact arguments; can_transfer / can_create return true iff every
-   registered module approves, the modules being asked in order up to the first refusal;
+   registered module approves, the modules being asked in order up to the first refusal; a hook
+   call SUCCEEDS AT ALL only if none of the modules it reaches fails - a module that does not
+   answer is never counted as an approval, a module that cannot be notified is not skipped;
    add / remove / bind / unbind change exactly what they say and call nobody; the mere passage of
    ledgers changes nothing. *)
 Theorem C04_compliance_dispatch : forall (cf : ccfg) (s : cstate) (c : ccall) (s' : cstate) (r : cret),
@@ -289,23 +316,28 @@ Theorem C04_compliance_dispatch : forall (cf : ccfg) (s : cstate) (c : ccall) (s
   | CTransferred f t a tok =>
       has_auth (cc_auths c) tok = true /\ In tok (bound s) /\
       mlog s' = map (fun m => (m, MOnTransfer f t a tok)) (mods s HTransferred) /\
-      mods s' = mods s /\ bound s' = bound s
+      mods s' = mods s /\ bound s' = bound s /\
+      (forall m, In m (mods s HTransferred) -> ~ In m (cc_fail c))
   | CCreated t a tok =>
       has_auth (cc_auths c) tok = true /\ In tok (bound s) /\
       mlog s' = map (fun m => (m, MOnCreated t a tok)) (mods s HCreated) /\
-      mods s' = mods s /\ bound s' = bound s
+      mods s' = mods s /\ bound s' = bound s /\
+      (forall m, In m (mods s HCreated) -> ~ In m (cc_fail c))
   | CDestroyed f a tok =>
       has_auth (cc_auths c) tok = true /\ In tok (bound s) /\
       mlog s' = map (fun m => (m, MOnDestroyed f a tok)) (mods s HDestroyed) /\
-      mods s' = mods s /\ bound s' = bound s
+      mods s' = mods s /\ bound s' = bound s /\
+      (forall m, In m (mods s HDestroyed) -> ~ In m (cc_fail c))
   | CCanTransfer f t a tok =>
       r = Some (forallb (fun m => negb (mem m (cc_deny c))) (mods s HCanTransfer)) /\
       mlog s' = map (fun m => (m, MCanTransfer f t a tok)) (asked (cc_deny c) (mods s HCanTransfer)) /\
-      mods s' = mods s /\ bound s' = bound s
+      mods s' = mods s /\ bound s' = bound s /\
+      (forall m, In m (asked (cc_deny c) (mods s HCanTransfer)) -> ~ In m (cc_fail c))
   | CCanCreate t a tok =>
       r = Some (forallb (fun m => negb (mem m (cc_deny c))) (mods s HCanCreate)) /\
       mlog s' = map (fun m => (m, MCanCreate t a tok)) (asked (cc_deny c) (mods s HCanCreate)) /\
-      mods s' = mods s /\ bound s' = bound s
+      mods s' = mods s /\ bound s' = bound s /\
+      (forall m, In m (asked (cc_deny c) (mods s HCanCreate)) -> ~ In m (cc_fail c))
   | CAddModule h m opr =>
       has_auth (cc_auths c) opr = true /\ ~ In m (mods s h) /\ Z.of_nat (length (mods s h)) < max_modules cf /\
       (forall h', mods s' h' = if hook_eqb h' h then mods s h ++ [m] else mods s h') /\
@@ -387,80 +419,93 @@ Print Assumptions C04_identity_monitor_accepts_model.
 
 (* ------------------------------------------------------------------------------------------ *)
 (* THE LAYERS TOGETHER.  When the answers the token receives during a call are the ones the
-   library's own compliance contract (in state [cst], modules [deny] refusing) and the library's
-   own identity verifier (in the world [w]) compute, a successful transfer / transfer_from means:
-   not paused, nobody frozen, amount within the unfrozen balance, BOTH PARTIES VERIFIED in the sense
-   of the claim registry ([verified]: registered identity holding, for every required topic, an
-   accepted matching claim of a trusted issuer) and NO compliance module registered for the
-   CanTransfer hook refuses; a successful mint: recipient verified, no CanCreate module refuses. *)
+   library's own compliance contract (in state [cst], modules [deny] refusing, modules [fail]
+   failing) and the library's own identity verifier (in the world [w]) compute - [approved]: the
+   compliance contract ANSWERED, and answered true; a query that fails is no approval - a
+   successful transfer / transfer_from means: not paused, nobody frozen, amount within the unfrozen
+   balance, BOTH PARTIES VERIFIED in the sense of the claim registry ([verified]: registered
+   identity holding, for every required topic, an accepted matching claim of a trusted issuer) and
+   NO compliance module registered for the CanTransfer hook refuses OR FAILS; a successful mint:
+   recipient verified, no CanCreate module refuses or fails. *)
 Theorem C04_gates_composed : forall (hc : hostcfg) (s : state) (c : call) (s' : state) (r : ret)
-    (cf : ccfg) (cst : cstate) (deny : list addr) (w : iworld),
+    (cf : ccfg) (cst : cstate) (deny fail : list addr) (w : iworld),
   ((forall a, idv_ok (eff_orc s c) a = is_ok (iverify_identity w a)) /\
-   (forall f t amt tok, Some (o_can_transfer (eff_orc s c)) =
-      match snd (cstep cf cst (mkCC (CCanTransfer f t amt tok) [] deny)) with Ok r => r | Fail => None end) /\
-   (forall t amt tok, Some (o_can_create (eff_orc s c)) =
-      match snd (cstep cf cst (mkCC (CCanCreate t amt tok) [] deny)) with Ok r => r | Fail => None end)) ->
+   (forall f t amt tok, o_can_transfer (eff_orc s c) =
+      match snd (cstep cf cst (mkCCF (CCanTransfer f t amt tok) [] deny fail)) with Ok (Some true) => true | _ => false end) /\
+   (forall t amt tok, o_can_create (eff_orc s c) =
+      match snd (cstep cf cst (mkCCF (CCanCreate t amt tok) [] deny fail)) with Ok (Some true) => true | _ => false end)) ->
   step hc s c = (s', Ok r) ->
   match c_op c with
   | Transfer from to amt | TransferFrom _ from to amt =>
       paused s = false /\ aflag s from = false /\ aflag s to = false /\
       0 <= amt <= bal s from - frozen s from /\
       verified w from = true /\ verified w to = true /\
-      (forall m, In m (mods cst HCanTransfer) -> ~ In m deny)
+      (forall m, In m (mods cst HCanTransfer) -> ~ In m deny /\ ~ In m fail)
   | Mint to amt _ =>
-      0 <= amt /\ verified w to = true /\ (forall m, In m (mods cst HCanCreate) -> ~ In m deny)
+      0 <= amt /\ verified w to = true /\ (forall m, In m (mods cst HCanCreate) -> ~ In m deny /\ ~ In m fail)
   | _ => True
   end.
 Proof. exact gates_composed. Qed.
 Print Assumptions C04_gates_composed.
 
-(* ... whose hypothesis can be met in every registry state, compliance state and set of refusing
-   modules (by the collaborator that answers exactly as the other two models compute).  The stack
-   run itself rests on C04_stack_gate below, not on this theorem. *)
+(* ... whose hypothesis can be met in every registry state, compliance state and sets of refusing /
+   failing modules (by the collaborator that answers exactly as the other two models compute).  The
+   stack run itself rests on C04_stack_gate below, not on this theorem. *)
 Theorem C04_composed_hypothesis_satisfiable : forall (s : state) (o : op) (au : list addr) (cf : ccfg)
-    (cst : cstate) (deny : list addr) (w : iworld),
-  let c := mkCall o au (fun _ => canonical_orc w cst deny) in
+    (cst : cstate) (deny fail : list addr) (w : iworld),
+  let c := mkCall o au (fun _ => canonical_orc w cst deny fail) in
   (forall a, idv_ok (eff_orc s c) a = is_ok (iverify_identity w a)) /\
-  (forall f t amt tok, Some (o_can_transfer (eff_orc s c)) =
-     match snd (cstep cf cst (mkCC (CCanTransfer f t amt tok) [] deny)) with Ok r => r | Fail => None end) /\
-  (forall t amt tok, Some (o_can_create (eff_orc s c)) =
-     match snd (cstep cf cst (mkCC (CCanCreate t amt tok) [] deny)) with Ok r => r | Fail => None end).
+  (forall f t amt tok, o_can_transfer (eff_orc s c) =
+     match snd (cstep cf cst (mkCCF (CCanTransfer f t amt tok) [] deny fail)) with Ok (Some true) => true | _ => false end) /\
+  (forall t amt tok, o_can_create (eff_orc s c) =
+     match snd (cstep cf cst (mkCCF (CCanCreate t amt tok) [] deny fail)) with Ok (Some true) => true | _ => false end).
 Proof. exact answers_of_canonical. Qed.
 Print Assumptions C04_composed_hypothesis_satisfiable.
 
 (* ------------------------------------------------------------------------------------------ *)
 (* THE WHOLE STACK (Run/C04Stack.v).  [sstep] is the composition actually run against the real
    contracts: a token step whose collaborator answers are computed by the compliance model from
-   its own state [cst] (modules [deny] refusing) and by the identity model from the registry state
-   [w] observed just before the call, and whose questions / notifications are then fed through
-   the compliance model with the token as caller (a rejected notification rolls everything back).
+   its own state [cst] (modules [deny] refusing, modules [fail] failing: a query that traps is no
+   approval) and by the identity model from the registry state [w] observed just before the call,
+   and whose questions / notifications are then fed through the compliance model with the token as
+   caller (a rejected or failing notification rolls everything back).
 
    THE COMPOSED GATE: in any states satisfying the two invariants (hence in every reachable one), a
    transfer / transfer_from that succeeds in the stack found the token not paused, nobody frozen,
    the amount within the unfrozen balance, BOTH PARTIES VERIFIED PER THE REGISTRY, NO module
-   registered for CanTransfer refusing, the token bound to the compliance contract; every module
-   registered for CanTransfer was asked once and every module registered for Transferred notified
-   once, in order, with the exact parties, amount and token.  Likewise mint. *)
+   registered for CanTransfer refusing OR FAILING, no module registered for Transferred failing,
+   the token bound to the compliance contract; every module registered for CanTransfer was asked
+   once and every module registered for Transferred notified once, in order, with the exact
+   parties, amount and token.  Likewise mint; a successful burn / forced transfer notified every
+   module registered for Destroyed / Transferred, none of which failed. *)
 Theorem C04_stack_gate : forall (hc : hostcfg) (cf : ccfg) (univ : list addr) (tok : addr)
-    (s : state) (cst : cstate) (o : op) (au deny : list addr) (w : iworld) (ss' : sstate) (r : ret),
+    (s : state) (cst : cstate) (o : op) (au deny fail : list addr) (w : iworld) (ss' : sstate) (r : ret),
   (forall a, 0 <= frozen s a <= bal s a) ->
   ((forall h, NoDup (mods cst h) /\ Z.of_nat (length (mods cst h)) <= max_modules cf) /\ NoDup (bound cst)) ->
-  sstep hc cf univ tok (mkSS s cst) (STok o au deny w) = (ss', Ok r) ->
+  sstep hc cf univ tok (mkSS s cst) (STokF o au deny fail w) = (ss', Ok r) ->
   match o with
   | Transfer from to amt | TransferFrom _ from to amt =>
       paused s = false /\ aflag s from = false /\ aflag s to = false /\
       0 <= amt <= bal s from - frozen s from /\
       verified w from = true /\ verified w to = true /\
-      (forall m, In m (mods cst HCanTransfer) -> ~ In m deny) /\
+      (forall m, In m (mods cst HCanTransfer) -> ~ In m deny /\ ~ In m fail) /\
+      (forall m, In m (mods cst HTransferred) -> ~ In m fail) /\
       In tok (bound cst) /\
       mlog (ss_cmp ss') = map (fun m => (m, MCanTransfer from to amt tok)) (mods cst HCanTransfer)
                           ++ map (fun m => (m, MOnTransfer from to amt tok)) (mods cst HTransferred)
   | Mint to amt _ =>
       0 <= amt /\ verified w to = true /\
-      (forall m, In m (mods cst HCanCreate) -> ~ In m deny) /\
+      (forall m, In m (mods cst HCanCreate) -> ~ In m deny /\ ~ In m fail) /\
+      (forall m, In m (mods cst HCreated) -> ~ In m fail) /\
       In tok (bound cst) /\
       mlog (ss_cmp ss') = map (fun m => (m, MCanCreate to amt tok)) (mods cst HCanCreate)
                           ++ map (fun m => (m, MOnCreated to amt tok)) (mods cst HCreated)
+  | Burn a amt _ =>
+      (forall m, In m (mods cst HDestroyed) -> ~ In m fail) /\ In tok (bound cst) /\
+      mlog (ss_cmp ss') = map (fun m => (m, MOnDestroyed a amt tok)) (mods cst HDestroyed)
+  | ForcedTransfer from to amt _ =>
+      (forall m, In m (mods cst HTransferred) -> ~ In m fail) /\ In tok (bound cst) /\
+      mlog (ss_cmp ss') = map (fun m => (m, MOnTransfer from to amt tok)) (mods cst HTransferred)
   | _ => True
   end.
 Proof. exact stack_gate. Qed.
@@ -689,4 +734,52 @@ Example C04_other_families_reject_frame_violations :
    check t = (0%N, 0%N, 0%N) /\
    snd (fst (check (sset_tok_obs (set_allow A12) t))) = 8%N /\
    snd (fst (check (sset_tok_obs (set_supply_obs 0) t))) = 8%N).
+Proof. vm_compute. repeat split; reflexivity. Qed.
+
+(* A compliance module that FAILS is no approval (round-3 finding: an aggregator that calls
+   `try_can_transfer` and treats only an explicit `false` as a veto fails open).  Modules 21, 20, 22
+   are registered in this order for CanTransfer and Transferred, token 10 is bound.  In the model a
+   check hook fails as a whole when a module it reaches fails (20 failing: can_transfer fails; 21
+   refusing first: false, 20 is not reached; 22 refusing after 20: fails), a notification fails when
+   a registered module fails; the monitor rejects a trace in which can_transfer nevertheless
+   answered true - whether the failing module's call shows in the log or (rolled back) not - and a
+   notification that was accepted although a module could not be notified.  In the stack, a
+   transfer fails when a module asked (20) or notified (22) fails, and the monitor rejects the
+   trace in which it went through. *)
+Example C04_failing_module_is_no_approval :
+  let s := crun cex_cfg cinit cex_history in
+  let q := (MCanTransfer 0 1 50 10)%N in
+  snd (cstep cex_cfg s (mkCCF (CCanTransfer 0 1 50 10)%N [] [] [20%N])) = Fail /\
+  snd (cstep cex_cfg s (mkCCF (CCanTransfer 0 1 50 10)%N [] [21%N] [20%N])) = Ok (Some false) /\
+  snd (cstep cex_cfg s (mkCCF (CCanTransfer 0 1 50 10)%N [] [22%N] [20%N])) = Fail /\
+  snd (cstep cex_cfg s (mkCCF (CCanTransfer 0 1 50 10)%N [] [] [23%N])) = Ok (Some true) /\   (* 23 is not registered *)
+  snd (cstep cex_cfg s (mkCCF (CTransferred 0 1 50 10)%N [10%N] [] [22%N])) = Fail /\
+  (let bad := cex_trace (cex_history ++ [mkCCF (CCanTransfer 0 1 50 10)%N [] [] [20%N]]) in
+   check bad = (0%N, 0%N, 0%N) /\
+   snd (fst (check (cset_out (Ok (Some true)) (cset_log [(21, q); (22, q)]%N bad)))) = 8%N /\
+   snd (fst (check (cset_out (Ok (Some true)) (cset_log [(21, q); (20, q); (22, q)]%N bad)))) = 8%N) /\
+  (let bad := cex_trace (cex_history ++ [mkCCF (CTransferred 0 1 50 10)%N [10%N] [] [20%N]]) in
+   check bad = (0%N, 0%N, 0%N) /\
+   snd (fst (check (cset_out (Ok None) (cset_log [(21, MOnTransfer 0 1 50 10); (22, MOnTransfer 0 1 50 10)]%N bad)))) = 8%N) /\
+  (let good := sx_trace (sx_history ++ [STok (Transfer 0%N 1%N 10) [0%N] [] sx_w]) in
+   let asked_fails := sx_trace (sx_history ++ [STokF (Transfer 0%N 1%N 10) [0%N] [] [20%N] sx_w]) in
+   let notified_fails := sx_trace (sx_history ++ [STokF (Transfer 0%N 1%N 10) [0%N] [] [22%N] sx_w]) in
+   check asked_fails = (0%N, 0%N, 0%N) /\ check notified_fails = (0%N, 0%N, 0%N) /\
+   snd (sstep ex_cfg cex_cfg sx_univ sx_tok (fold_left (fun ss c => fst (sstep ex_cfg cex_cfg sx_univ sx_tok ss c)) sx_history sinit)
+          (STokF (Transfer 0%N 1%N 10) [0%N] [] [20%N] sx_w)) = Fail /\
+   snd (fst (check (sgraft good asked_fails))) = 8%N /\
+   snd (fst (check (sgraft good notified_fails))) = 8%N).
+Proof. vm_compute. repeat split; reflexivity. Qed.
+
+(* A transfer to a muxed destination is checked like every other transfer (round-3 finding: an
+   override that handles destinations with an id on a path of its own and forgets the
+   `transferred` notification there): the item the harness prints for it ([IMux id]) is the plain
+   item, and the monitor rejects it when the compliance contract was not notified. *)
+Example C04_monitor_rejects_unnotified_muxed_transfer :
+  let c := mkCall (Transfer 1%N 2%N 25) [1%N] ex_orc in
+  let t := ex_trace (ex_history ++ [c]) in
+  let muxed := map_items (map (fun it => IMux 18446744073709551615 (it_call it) (it_out it) (it_obs it))) in
+  IMux 7 c = I c /\
+  check (muxed t) = (0%N, 0%N, 0%N) /\
+  snd (fst (check (tamper (set_cmp [QCanTransfer 1 2 25]%N) (muxed t)))) = 8%N.
 Proof. vm_compute. repeat split; reflexivity. Qed.
